@@ -42,6 +42,25 @@ def subst_kind(stmts):
             return ('inf', t)
         if isinstance(n, ast.IfExp) and _is_inf(n.body, -1) and _is_inf(n.orelse, +1):
             return ('inverted', n.test)
+        # the same choice written as a statement: if verdict: <emit +inf> else: <emit -inf>
+        if isinstance(n, ast.If) and len(n.body) == 1 and len(n.orelse) == 1:
+            def emitted(st):
+                if isinstance(st, ast.Expr) and isinstance(st.value, ast.Call) and isinstance(st.value.func, ast.Attribute) and st.value.func.attr == 'append' and st.value.args:
+                    a_ = st.value.args[0]
+                    return a_.elts[1] if isinstance(a_, (ast.List, ast.Tuple)) and len(a_.elts) == 2 else a_
+                if isinstance(st, ast.Assign) and len(st.targets) == 1 and isinstance(st.targets[0], ast.Name):
+                    return st.value
+                return None
+            eb, eo = emitted(n.body[0]), emitted(n.orelse[0])
+            if eb is not None and eo is not None:
+                t = n.test
+                if isinstance(t, ast.Compare) and len(t.ops) == 1 and isinstance(t.ops[0], (ast.Eq, ast.Is)) and isinstance(t.comparators[0], ast.Constant) \
+                        and t.comparators[0].value is True:
+                    t = t.left
+                if _is_inf(eb, +1) and _is_inf(eo, -1):
+                    return ('inf', t)
+                if _is_inf(eb, -1) and _is_inf(eo, +1):
+                    return ('inverted', t)
     for n in ast.walk(ast.Module(body=list(stmts), type_ignores=[])):
         if isinstance(n, ast.Call) and isinstance(n.func, ast.Attribute) and n.func.attr == 'append' and n.args:
             a = n.args[0]
@@ -168,6 +187,23 @@ def check_offline_variant(ix, rep, mon):
     if len(the_if) != 1:
         raise AnalysisError('%s: expected exactly one sensitivity test' % f.where)
     the_if = the_if[0]
+    # `out = [E for s in S]` in an arm is the loop `for s in S: out.append(E)` (on a copy)
+    import copy as _copy
+    the_if = _copy.deepcopy(the_if)
+    for field in ('body', 'orelse'):
+        new_body = []
+        for q in getattr(the_if, field):
+            if isinstance(q, ast.Assign) and len(q.targets) == 1 and isinstance(q.targets[0], ast.Name) and isinstance(q.value, ast.ListComp) \
+                    and len(q.value.generators) == 1 and not q.value.generators[0].ifs:
+                g_ = q.value.generators[0]
+                app = ast.Expr(value=ast.Call(func=ast.Attribute(value=ast.Name(id=q.targets[0].id, ctx=ast.Load()), attr='append', ctx=ast.Load()), args=[q.value.elt], keywords=[]))
+                lp = ast.For(target=g_.target, iter=g_.iter, body=[app], orelse=[])
+                ast.copy_location(lp, q)
+                ast.fix_missing_locations(lp)
+                new_body.append(lp)
+            else:
+                new_body.append(q)
+        setattr(the_if, field, new_body)
     t = the_if.test
     attr = None
     if isinstance(t, ast.UnaryOp) and isinstance(t.op, ast.Not) and isinstance(t.operand, ast.Attribute) and ast.unparse(t.operand.value) == nodep:
@@ -546,6 +582,83 @@ def check_factories(ix, rep):
 
 
 # ------------------------------------------------------------------------------------------------- in_vars / out_vars
+def _union_terms(e, attr):
+    """children whose `<child>.<attr>` the expression unites: + and | chains, union(), copies (list / set / sorted / tuple / [:] / copy());
+    None as soon as an operator can drop a variable (^, &, -, a filter)"""
+    if isinstance(e, ast.Attribute) and e.attr == attr and isinstance(e.value, ast.Name):
+        return {e.value.id}
+    if isinstance(e, ast.BinOp) and isinstance(e.op, (ast.Add, ast.BitOr)):
+        l, r = _union_terms(e.left, attr), _union_terms(e.right, attr)
+        return None if l is None or r is None else l | r
+    if isinstance(e, ast.Call) and isinstance(e.func, ast.Name) and e.func.id in ('list', 'set', 'sorted', 'tuple', 'frozenset') and len(e.args) == 1 and not e.keywords:
+        return _union_terms(e.args[0], attr)
+    if isinstance(e, ast.Call) and isinstance(e.func, ast.Attribute) and e.func.attr == 'union':
+        parts = [_union_terms(e.func.value, attr)] + [_union_terms(a, attr) for a in e.args]
+        return None if any(p is None for p in parts) else set().union(*parts)
+    if isinstance(e, ast.Call) and isinstance(e.func, ast.Attribute) and e.func.attr == 'copy' and not e.args:
+        return _union_terms(e.func.value, attr)
+    if isinstance(e, ast.Subscript) and isinstance(e.slice, ast.Slice) and e.slice.lower is None and e.slice.upper is None and e.slice.step is None:
+        return _union_terms(e.value, attr)
+    if isinstance(e, (ast.List, ast.Tuple)) and not e.elts:
+        return set()
+    return None
+
+
+def _variable_leaf_ok(fnode):
+    """Variable.__init__ under iotype == 'input' and under any other io type: the variable is listed in in_vars in the first world only and in
+    out_vars in the second only"""
+    params = [a.arg for a in fnode.args.args[1:]]
+    if not params:
+        return False
+    var = params[0]
+    io = next((p for p in params if 'io' in p.lower()), None)
+    if io is None:
+        return False
+
+    def truth(t, world):
+        if isinstance(t, ast.UnaryOp) and isinstance(t.op, ast.Not):
+            v = truth(t.operand, world)
+            return None if v is None else not v
+        if isinstance(t, ast.Compare) and len(t.ops) == 1:
+            l, r = t.left, t.comparators[0]
+            if isinstance(r, ast.Name) and r.id == io:
+                l, r = r, l
+            if isinstance(l, ast.Name) and l.id == io:
+                if isinstance(r, ast.Constant) and isinstance(t.ops[0], (ast.Eq, ast.NotEq)):
+                    v = (world == r.value)
+                    return v if isinstance(t.ops[0], ast.Eq) else not v
+                if isinstance(r, (ast.Tuple, ast.List, ast.Set)) and isinstance(t.ops[0], (ast.In, ast.NotIn)) and all(isinstance(x, ast.Constant) for x in r.elts):
+                    v = world in [x.value for x in r.elts]
+                    return v if isinstance(t.ops[0], ast.In) else not v
+        return None
+
+    def run(stmts, world, got):
+        for st in stmts:
+            if isinstance(st, ast.If):
+                v = truth(st.test, world)
+                if v is None:
+                    run(st.body, world, got)
+                    run(st.orelse, world, got)
+                else:
+                    run(st.body if v else st.orelse, world, got)
+            elif isinstance(st, ast.Assign) and len(st.targets) == 1 and isinstance(st.targets[0], ast.Attribute) and isinstance(st.targets[0].value, ast.Name) \
+                    and st.targets[0].value.id == 'self' and st.targets[0].attr in ('in_vars', 'out_vars'):
+                v = st.value
+                holds = isinstance(v, (ast.List, ast.Tuple)) and len(v.elts) == 1 and isinstance(v.elts[0], (ast.Name, ast.Attribute)) \
+                    and ast.unparse(v.elts[0]) in (var, 'self.' + var)
+                empty = isinstance(v, (ast.List, ast.Tuple)) and not v.elts
+                got[st.targets[0].attr] = 'var' if holds else 'empty' if empty else 'other'
+            elif isinstance(st, ast.Assign) and len(st.targets) == 1 and isinstance(st.targets[0], ast.Name) and isinstance(st.value, ast.IfExp):
+                pass
+    res = {}
+    for world in ('input', 'output'):
+        got = {}
+        run(fnode.body, world, got)
+        res[world] = got
+    return res['input'].get('in_vars') == 'var' and res['input'].get('out_vars', 'empty') == 'empty' \
+        and res['output'].get('out_vars') == 'var' and res['output'].get('in_vars', 'empty') == 'empty'
+
+
 def check_iovars(ix, rep):
     binary = ix.find_class('rtamt.syntax.node.binary_node', 'BinaryNode')
     unary = ix.find_class('rtamt.syntax.node.unary_node', 'UnaryNode')
@@ -558,8 +671,7 @@ def check_iovars(ix, rep):
         k = 2 if ix.is_subclass(nc, binary) else 1 if ix.is_subclass(nc, unary) else 0
         if k == 0:
             if nc.name == 'Variable':
-                src = ast.unparse(init.node)
-                ok = "self.in_vars = [var]" in src and "self.out_vars = [var]" in src and "iotype == 'input'" in src
+                ok = _variable_leaf_ok(init.node)
                 (rep.ok if ok else rep.fail)('R-IOVARS', nc.module.rel, nc.name + '.__init__', 'leaf', 'in_vars/out_vars from the io type' if ok else
                                              'Variable does not set in_vars/out_vars from its io type', init.node.lineno)
                 n += 1
@@ -573,7 +685,12 @@ def check_iovars(ix, rep):
                         and isinstance(st.targets[0].value, ast.Name) and st.targets[0].value.id == 'self':
                     got = ast.unparse(st.value).replace(' ', '')
             want = '+'.join('%s.%s' % (c, attr) for c in kids)
-            if got == want:
+            gexpr = None
+            for st in init.node.body:
+                if isinstance(st, ast.Assign) and isinstance(st.targets[0], ast.Attribute) and st.targets[0].attr == attr \
+                        and isinstance(st.targets[0].value, ast.Name) and st.targets[0].value.id == 'self':
+                    gexpr = st.value
+            if got == want or (gexpr is not None and _union_terms(gexpr, attr) == set(kids)):
                 rep.ok('R-IOVARS', nc.module.rel, nc.name + '.__init__', attr, want, init.node.lineno)
             else:
                 rep.fail('R-IOVARS', nc.module.rel, nc.name + '.__init__', attr,
